@@ -104,6 +104,12 @@ class Ctx:
         return [o for o in self.obligations if o.status == "violated"]
 
     @property
+    def new_violations(self) -> list[Obligation]:
+        """violations that are not listed as known findings of this property"""
+        known = {k["key"] for k in load_known_findings().get("known", []) if k.get("property") == self.prop}
+        return [o for o in self.violations if o.key not in known]
+
+    @property
     def undecideds(self) -> list[Obligation]:
         return [o for o in self.obligations if o.status == "undecided"]
 
